@@ -80,6 +80,40 @@ def task(item):
     out_v = []
     n = 0
     probes = rt.probes_for(u.pkg, u.api, t)
+    # the wire door of a Timestamp: strings in and near the declared format, judged by the format alone (strptime is the definition
+    # of "a string in the declared format")
+    ut0 = rt.unalias(t)
+    if pos == 'alias' and isinstance(ut0, dt.Timestamp):
+        import datetime as _dtm
+        from mc import rtdoc
+        texts = []
+        for v in rt.ts_values(ut0.format):
+            good = v.strftime(ut0.format)
+            texts.append(good)
+            texts += [m for _, m in rtdoc.mutations(good) if isinstance(m, str)]
+        for text in dict.fromkeys(texts):
+            n += 1
+            try:
+                _dtm.datetime.strptime(text, ut0.format)
+                verdict = True
+            except ValueError:
+                verdict = False
+            inputs = {'shape': shape, 'position': pos, 'door': 'decode-timestamp-text', 'probe': text}
+            try:
+                u.ss.json_compat_obj_decode(u.validator(pos, i), text)
+                accepted = True
+            except VE:
+                accepted = False
+            except Exception as e:  # noqa
+                oc['foreign-exception'] += 1
+                out_v.append(viol('%s:decode-timestamp-text' % rtbase.runtime_identity(e, 'refusal-not-validation-error'), 'decoding %r as %s raised %r' % (text, shape, e), inputs, repr(e)))
+                continue
+            if accepted != verdict:
+                oc['disagree'] += 1
+                out_v.append(viol('%s:decode-timestamp-text:%s' % ('accepted-invalid' if accepted else 'refused-valid', rtbase.shape_kind(shape)),
+                                  '%r is %s the declared format %r but was %s' % (text, 'in' if verdict else 'not in', ut0.format, 'accepted' if accepted else 'refused'), inputs))
+            else:
+                oc['agree-accept' if accepted else 'agree-refuse'] += 1
     for label, obj in probes:
         verdict = rt.ref_valid(u.pkg, u.api, t, obj)
         doors = []
